@@ -1329,23 +1329,6 @@ def run(tier, rng):
     if inv['cells'] and not any(x.kind in ('schedule-dependent-result', 'topology-dependent-serial-result') for x in violations):
         targeted_runs, _, v, _ = check_impl_only(rng, 40, fams + family_scenarios(rng, 8, 9), targeted=True)
         violations += v
-    # the inventory's cells, each with a concrete schedule (when the driven runs found one) as witness
-    witness = next((x.detail for x in violations if x.kind in ('schedule-dependent-result', 'topology-dependent-serial-result')),
-                   None)
-    cellv = []
-    for cell, name in inv['cells'][:3]:
-        cellv.append(core.Violation(
-            'shared-cell', f'state shared between threads is written at query time: {name} ({cell}); the hypothesis '
-            f'query_time_shared_cells = [] of C20_isolation does not hold for this tree '
-            f'(changed by the workload: {inv["changed"]}, functools caches: {inv["caches"]}, class-level containers '
-            f'written through self: {inv.get("class_writes", [])}); '
-            + (f'witness schedule: {_witness_text(witness)}' if witness else 'the targeted schedule search found no '
-               'schedule-dependent result'),
-            {'cell': cell, 'name': name, 'changed_by_workload': inv['changed'], 'functools_caches': inv['caches'],
-             'class_level_containers_written_through_self': inv.get('class_writes', []),
-             'connection_attributes': inv.get('conn_attrs', {}), 'witness': witness,
-             'workload': [q for q, _ in WORKLOAD]}, signature='shared-cell:' + name, found_input=witness is not None))
-    violations[pre:pre] = cellv
     fr_runs, fr_bad = free_running(rng, 3 if quick else 30)
     ts_runs, ts_bad = text_stress(1, per_thread=8) if quick else text_stress(4, per_thread=25)
     if ts_bad:
@@ -1361,6 +1344,25 @@ def run(tier, rng):
         violations.append(core.Violation('free-running-mismatch', f'free-running threads: {describe(case)} gave {res}, serial {ser}',
                                          {'case': case, 'results': res, 'serial': ser},
                                          signature='free-running:' + describe(case)))
+
+    # the inventory's cells, each with a concrete schedule (when the driven runs found one) as witness
+    witness = next((x.detail for x in violations if x.kind in ('schedule-dependent-result', 'topology-dependent-serial-result')),
+                   None) or next((x.detail for x in violations if x.kind in ('model-mismatch', 'free-running-text-statement',
+                                                                             'free-running-mismatch')), None)
+    cellv = []
+    for cell, name in inv['cells'][:3]:
+        cellv.append(core.Violation(
+            'shared-cell', f'state shared between threads is written at query time: {name} ({cell}); the hypothesis '
+            f'query_time_shared_cells = [] of C20_isolation does not hold for this tree '
+            f'(changed by the workload: {inv["changed"]}, functools caches: {inv["caches"]}, class-level containers '
+            f'written through self: {inv.get("class_writes", [])}); '
+            + (f'witness schedule: {_witness_text(witness)}' if witness else 'the targeted schedule search found no '
+               'schedule-dependent result'),
+            {'cell': cell, 'name': name, 'changed_by_workload': inv['changed'], 'functools_caches': inv['caches'],
+             'class_level_containers_written_through_self': inv.get('class_writes', []),
+             'connection_attributes': inv.get('conn_attrs', {}), 'witness': witness,
+             'workload': [q for q, _ in WORKLOAD]}, signature='shared-cell:' + name, found_input=witness is not None))
+    violations[pre:pre] = cellv
 
     def merge(*ss):
         out = {}
@@ -1420,6 +1422,8 @@ def _fix_case(case):
 
 
 def _witness_text(w):
+    if w.get('text_stress'):
+        return f'free-running threads, text statements: {w["failures"][:1]}'
     if 'texts' in w:
         return f'{w["topology"]}: {" || ".join(w["texts"])} schedule={w["schedule"]}'
     return describe(w['case'], w.get('schedule'))
